@@ -382,7 +382,7 @@ def finish_d24_witness(ctx, runner: B.Runner, h, c, cpu_need: float, wall_cap: f
 def correspondence(ctx):
     core.assert_repo_loaded()
     scratch = Path(ctx.scratch)
-    runner = B.Runner(scratch / "run", cpu_limit=ctx.pick(10.0, 25.0), wall_limit=ctx.pick(150.0, 400.0))
+    runner = B.Runner(scratch / "run", cpu_limit=ctx.pick(20.0, 40.0), wall_limit=ctx.pick(120.0, 300.0))
     try:
         _correspondence(ctx, scratch, runner)
     finally:
@@ -423,7 +423,7 @@ def _correspondence(ctx, scratch, runner):
         for hist in ([ev], ["pending", ev]):
             cid += 1
             cases.append(gen_worker_case(ctx.rng, cid, wd(cid), None, hist, 0.0))
-    for _ in range(ctx.pick(40, 1400)):
+    for _ in range(ctx.pick(40, 400)):
         cid += 1
         cases.append(gen_worker_case(ctx.rng, cid, wd(cid)))
     for c in cases:
@@ -457,7 +457,7 @@ def _correspondence(ctx, scratch, runner):
     # ---- matchers
     run_matchers(ctx, ctx.pick(1500, 20000))
     # ---- D24 witness verdict
-    v = finish_d24_witness(ctx, runner, h24, c24, cpu_need=ctx.pick(5.0, 15.0), wall_cap=ctx.pick(120.0, 300.0))
+    v = finish_d24_witness(ctx, runner, h24, c24, cpu_need=ctx.pick(5.0, 15.0), wall_cap=ctx.pick(600.0, 900.0))
     hang = v[0] == "hang"
     if "D24" in known:
         ctx.finding("D24", hang, f"workflow node, sacct COMPLETED 0:0, no result file: {v}")
